@@ -29,7 +29,8 @@ type CapSpec struct {
 	FeasMs      int     `json:"feas_ms,omitempty"`
 	NoMerge     bool    `json:"nomerge,omitempty"`
 	Concretize  int     `json:"concretize,omitempty"`
-	Live        string  `json:"live,omitempty"` // live solver: z3 (default) | cvc5 | z3-new
+	Live        string  `json:"live,omitempty"` // live solver: z3-new (default) | z3 | cvc5
+	NoMergeIn   []string `json:"nomerge_in,omitempty"` // functions (by name) whose branches are forked, not merged
 }
 
 type TierSpec struct {
@@ -162,6 +163,9 @@ func mergeCaps(base CapSpec, o *CapSpec) CapSpec {
 	if o.Live != "" {
 		base.Live = o.Live
 	}
+	if o.NoMergeIn != nil {
+		base.NoMergeIn = o.NoMergeIn
+	}
 	base.NoMerge = base.NoMerge || o.NoMerge
 	return base
 }
@@ -192,6 +196,10 @@ func capsToConfig(c CapSpec, cs map[string]int) Config {
 	}
 	cfg.NoMerge = c.NoMerge
 	cfg.Live = c.Live
+	cfg.NoMergeIn = map[string]bool{}
+	for _, f := range c.NoMergeIn {
+		cfg.NoMergeIn[f] = true
+	}
 	return cfg
 }
 
